@@ -51,8 +51,18 @@ func (s gxzScenario) payload() []byte {
 	if s.Payload == "regimes" {
 		return gxzRegimes
 	}
+	if s.Payload == "multistream" {
+		return gxzMulti
+	}
 	return gxzPayload
 }
+
+// gxzMulti: the content of a concatenated archive whose first stream holds exactly 65536 bytes (a multiple of
+// io.Copy's buffer), the second an empty file, the third a short text
+var gxzMulti = func() []byte {
+	rng := rand.New(rand.NewSource(43))
+	return append(genText(rng, 65536), genText(rng, 3000)...)
+}()
 
 func (s gxzScenario) String() string {
 	return fmt.Sprintf("%s %s keep=%v force=%v tgt=%v tmp=%v input=%s nosuffix=%v", s.Mode, s.Format, s.Keep, s.Force, s.TgtExists, s.TmpExists, s.Input, s.NoSuffix)
@@ -169,6 +179,14 @@ func runGxzScenarioOnce(r *Result, d *DriverPool, gxz string, sc gxzScenario, in
 	orig := sc.payload()
 	if sc.Mode == "decompress" {
 		orig = compressWith(sc.Format, sc.payload())
+		if sc.Payload == "multistream" {
+			// three xz streams: 65536 bytes, nothing, the rest; separated by 0 / 4 bytes of padding
+			p := sc.payload()
+			orig = append([]byte{}, compressWith("xz", p[:65536])...)
+			orig = append(orig, compressWith("xz", nil)...)
+			orig = append(orig, 0, 0, 0, 0)
+			orig = append(orig, compressWith("xz", p[65536:])...)
+		}
 		switch sc.Input {
 		case "corrupt":
 			orig = append([]byte{}, orig...)
@@ -380,6 +398,8 @@ func checkC10(a *checkArgs, r *Result) error {
 			regimes = append(regimes, gxzScenario{Op: "gxz-run", Mode: mode, Format: format, Input: "valid", Payload: "regimes"})
 		}
 	}
+	regimes = append(regimes, gxzScenario{Op: "gxz-run", Mode: "decompress", Format: "xz", Input: "valid", Payload: "multistream"},
+		gxzScenario{Op: "gxz-run", Mode: "decompress", Format: "xz", Keep: true, Input: "valid", Payload: "multistream"})
 	if a.tier != "thorough" {
 		// quick: a deterministic half of the grid, always including the special scenarios
 		var keep []gxzScenario
